@@ -41,10 +41,24 @@ def conv(v):
     if isinstance(v, (list, tuple)):
         if len(v) and all(isinstance(x, str) for x in v):
             return list(v)
+        if len(v) and _all_str(v):
+            return _as_lists(v)                  # a table of strings comes back as nested lists
         return np.asarray(v)
     if isinstance(v, np.ndarray):
+        if v.dtype == object and v.size and _all_str(v.tolist()):
+            return v.tolist()
         return v
     raise TypeError(type(v))
+
+
+def _all_str(v):
+    if isinstance(v, str):
+        return True
+    return isinstance(v, (list, tuple)) and len(v) > 0 and all(_all_str(x) for x in v)
+
+
+def _as_lists(v):
+    return v if isinstance(v, str) else [_as_lists(x) for x in v]
 
 
 def canon(x):
@@ -81,6 +95,12 @@ def gen_leaf(r, N, dict_form):
     if kind == 4:                                    # list of strings of a length different from N
         L = r.choice([x for x in (1, 2, 3, 5) if x != N])
         v = [r.choice(["a", "bc", "déf", ""]) for _ in range(L)]
+        k2 = r.random()
+        if k2 < 0.25:                                # a table of strings (rows x columns), stored whole
+            ncol = r.choice([1, 2, 3])
+            v = [[r.choice(["a", "bc", "déf", "", "row"]) for _ in range(ncol)] for _ in range(L)]
+        elif k2 < 0.35:                              # three dimensions, as an object array
+            v = np.array([[[r.choice(["p", "qé", ""])] for _ in range(2)] for _ in range(L)], dtype=object)
         return v, [conv(v)] * N
     if kind == 5:                                    # 2-D array whose first dimension differs from N
         L = r.choice([x for x in (2, 3, 4) if x != N])
